@@ -246,9 +246,14 @@ def union_order_conflict(trees):
     orders cannot be given a well-defined expectation"""
     from vf.spec import Union_, flat_alts
 
+    from vf.spec import ObjectT as _Obj
+
     seen = {}
     for t in trees:
-        for n in walk_all(t):
+        nodes = list(walk_all(t))
+        # a none_as_undefined field is compiled with None removed from its union: that stripped union counts too
+        nodes += [f.model_type() for n in nodes if isinstance(n, _Obj) for f in n.fields if getattr(f, "none_as_undefined", False)]
+        for n in nodes:
             if isinstance(n, Union_):
                 order = []
                 for a in flat_alts(n):
